@@ -36,7 +36,15 @@ Proof. exact gen_adapters_ok. Qed.
 Theorem C13_shapes_recognised : shapes_ok = true.
 Proof. exact gen_shapes_ok. Qed.
 
+(* the quantification over rule *functions* above is justified: the regenerated scan of all
+   30 message files finds no iteration over an unordered container, clock, RNG or interior
+   mutability in rule code, so each rule's result is determined by the message; with the two
+   theorems above, validating again returns the same list in the same order *)
+Theorem C13_rules_are_functions_of_the_message : rules_deterministic = true.
+Proof. exact gen_rules_deterministic. Qed.
+
 Print Assumptions C13_stop_is_prefix.
+Print Assumptions C13_rules_are_functions_of_the_message.
 Print Assumptions C13_every_type_covered.
 Print Assumptions C13_adapters_agree.
 Print Assumptions C13_adapters_recognised.
